@@ -566,38 +566,70 @@ def run_G(pid, tier, seed):
         # reconfigure priorities
         if pid in ("C06", "C07") and rng.random() < 0.5 and sc["n"] >= 1:
             stats["cp_after_config"] += 1
-            newp = rng.choice([0, 0, -7, 4, 9, 50])
+            P_ = [pos["n%d" % i] for i in range(sc["n"])]
             all_tags = sorted({t for s_ in sc["specs"] if s_["tag"] is not None
                                for t in ([s_["tag"]] if isinstance(s_["tag"], str) else s_["tag"])})
-            if all_tags and rng.random() < 0.5:
-                # through a TAG: every node carrying exactly that tag gets the new priority
-                key = rng.choice(all_tags)
-                tgts = [i for i, s_ in enumerate(sc["specs"]) if s_["tag"] == key or (isinstance(s_["tag"], tuple) and key in s_["tag"])]
-                stats["cp_after_config_by_tag"] = stats.get("cp_after_config_by_tag", 0) + 1
-            else:
-                tgt = rng.randrange(sc["n"])
-                key, tgts = "n%d" % tgt, [tgt]
-                if any((s["tag"] == key) or (isinstance(s["tag"], tuple) and key in s["tag"]) for s in sc["specs"]):
-                    key, tgts = None, []        # the id is also somebody's tag: the tag would win; skip
-            conf_ = {"nodes": {key: {"priority": newp}}} if key is not None else None
-            if conf_ is not None:
+            keys = []
+            for _e in range(rng.choice([1, 1, 2, 3])):
+                # an entry addresses nodes through a TAG (every node carrying exactly it) or a node id, and states the
+                # priority, the sequential flag, both, or nothing
+                key = rng.choice(all_tags) if all_tags and rng.random() < 0.5 else "n%d" % rng.randrange(sc["n"])
+                if key in [k_ for k_, _ in keys]:
+                    continue
+                ent, r_ = {}, rng.random()
+                if r_ < 0.8:
+                    ent["priority"] = rng.choice([0, 0, -7, 4, 9, 50])
+                if r_ >= 0.6 and r_ < 0.95:
+                    ent["is_sequential"] = rng.random() < 0.5
+                keys.append((key, ent))
+            conf_ = {"nodes": dict(keys)}
+            try:
+                expanded = [(i, ent) for key, ent in keys for i in G.resolve_alias(sc, ("str", key))]
+                want_refused = len({i for i, _ in expanded}) != len(expanded)
+            except ValueError:
+                expanded, want_refused = [], True
+            seq0 = [bool(d.exec_nodes[x].is_sequential) for x in ids_]
+            try:
                 d.config_from_dict(conf_)
                 if rng.random() < 0.3:
                     d.config_from_dict(conf_)     # the same dict object given again: still the same configuration
+                real_cfg = "OK"
+            except ValueError:
+                real_cfg = "REFUSED"
+            if len(keys) > 1:
+                stats["cp_after_config_multi_entry"] = stats.get("cp_after_config_multi_entry", 0) + 1
+            if any(not k_.startswith("n") or not k_[1:].isdigit() for k_, _ in keys):
+                stats["cp_after_config_by_tag"] = stats.get("cp_after_config_by_tag", 0) + 1
+            want_prio, want_seq = list(prio), list(seq0)
+            if want_refused:
+                stats["config_refused"] = stats.get("config_refused", 0) + 1
+                if real_cfg == "OK":
+                    bad("ambiguous-configuration-accepted", sc, config=conf_)
+            elif real_cfg == "REFUSED":
+                failures.append(Failure("correspondence", "G-valid-configuration-refused", sc, dict(config=conf_), slice_="G"))
+            else:
+                for i, ent in expanded:
+                    if "priority" in ent:
+                        want_prio[P_[i]] = ent["priority"]
+                    if "is_sequential" in ent:
+                        want_seq[P_[i]] = ent["is_sequential"]
             prio2 = [d.exec_nodes[x].priority for x in ids_]
-            want_prio = list(prio)
-            for i in tgts:
-                want_prio[pos["n%d" % i]] = newp
-            if prio2 != want_prio:
-                bad("configuration-not-applied", sc, key=key, new_priority=newp, real=dict(zip(ids_, prio2)), want=dict(zip(ids_, want_prio)))
+            seq2 = [bool(d.exec_nodes[x].is_sequential) for x in ids_]
+            if (prio2, seq2) != (want_prio, want_seq) and not (want_refused and real_cfg == "OK"):
+                bad("configuration-not-applied", sc, config=conf_, real=dict(zip(ids_, zip(prio2, seq2))),
+                    want=dict(zip(ids_, zip(want_prio, want_seq))))
             want2 = spec_cp(preds, want_prio)
             real2 = [d.graph_ids.compound_priority[x] for x in ids_]
-            if real2 != want2:
+            if real2 != want2 and not (want_refused and real_cfg == "OK"):
                 bad("cp-table-wrong/after-config", sc, real=dict(zip(ids_, real2)), want=dict(zip(ids_, want2)),
-                    reconfigured=(key, newp))
+                    config=conf_)
+            # the same configuration decided by the model (GM.applyConfig), on the table BEFORE it
+            q_ = "cfg %s ; %s" % (" ".join(str(int(b)) for b in seq0), " ; ".join(
+                "s:%s %s %s" % (k_, e_.get("priority", "-"), int(e_["is_sequential"]) if "is_sequential" in e_ else "-")
+                for k_, e_ in keys))
+            blocks.append(G.graph_block("cfg%s" % k, preds, prio, debug, [q_], names=G.scenario_names(sc, ids_, P_)))
+            queries.append(("cfg%s" % k, [("cfg", dict(real=(real_cfg, prio2, seq2, real2), config=conf_))], sc))
             prio, want_cp = want_prio, want2
-            blocks.append(G.graph_block("cfg%s" % k, preds, prio, debug, ["cp"]))
-            queries.append(("cfg%s" % k, [("cp", dict(real=real2, where="after-config"))], sc))
         # a DAG obtained by compose(): its table must obey the same definition (its node table has no recording order)
         if pid in ("C06", "C07") and rng.random() < 0.4 and sc["n"] >= 2:
             import warnings as _w
@@ -735,6 +767,21 @@ def run_G(pid, tier, seed):
                 if model != m["real"] and pid in ("C06", "C07"):
                     failures.append(Failure("correspondence", "G-cp(%s)" % m["where"], sc,
                                             dict(model=model, real=m["real"]), slice_="G"))
+            elif kind == "cfg":
+                stats["configurations_decided_by_the_model"] = stats.get("configurations_decided_by_the_model", 0) + 1
+                real_cfg, rp, rs, rcp = m["real"]
+                if a[0] != "CFG":
+                    raise common.HarnessError("graph driver did not answer a cfg query: %r" % (a,))
+                if a[1] == "REFUSED":
+                    model_c = ("REFUSED",)
+                    real_c = (real_cfg,)
+                else:
+                    pi, si, ci = a.index("P"), a.index("S"), a.index("CP")
+                    model_c = ("OK", [int(x) for x in a[pi + 1:si]], [x == "1" for x in a[si + 1:ci]], [int(x) for x in a[ci + 1:]])
+                    real_c = (real_cfg, rp, rs, rcp)
+                if model_c != real_c and pid in ("C06", "C07"):
+                    failures.append(Failure("correspondence", "G-config(model %s, code %s)" % (model_c[0], real_c[0]), sc,
+                                            dict(config=m["config"], model=model_c, real=real_c), slice_="G"))
             elif kind == "alias-static":
                 if a[0] != "VALUEERROR":
                     failures.append(Failure("correspondence", "G-alias-resolution(model accepts an unknown alias)", sc,
@@ -870,7 +917,8 @@ ASSUME_G = [
 PROPS["C06"]["run"] = run_S_and_G_C06
 reg("C07", ["Props.C07_cp_is_own_plus_distinct_descendants", "GM.C07_cp_order_independent", "GM.mem_descAll_iff",
             "GM.descAll_nodup", "Props.C07_pinned_counts_paths", "GM.C07_pinned_order_dependent",
-            "Props.C07_next_pick_is_determined", "Props.C07_pick_unique"],
+            "Props.C07_next_pick_is_determined", "Props.C07_pick_unique",
+            "Props.C07_configuration_law", "Props.C07_configuration_refused_iff", "Props.C07_configuration_idempotent"],
     run_G, ASSUME_G)
 reg("C12", ["GM.C12_closure", "Props.C12_selection_is_closure", "GM.selectNodes_none", "GM.mem_descAll_iff", "Props.C12_restriction_keeps_values", "Props.C12_alias_tag_wins", "Props.C12_alias_id", "Props.C12_alias_unknown_refused", "Props.C12_alias_list_is_union", "Props.C12_alias_list_refused_iff"], run_G, ASSUME_G)
 
